@@ -149,6 +149,42 @@ impl PatProp for Limits {
                 if &cc0 != want_c {
                     return Verdict::Fail(Fail::new("limit-threshold-captures", format!("limit {} with {} backtracks needed: {}", l, b, want_c.show()), cc0.show()));
                 }
+                // the first item of the iterators and a one-replacement try_replacen with a group-expanding template
+                // run that same first search
+                let first = |x: Option<fancy_regex::Result<(usize, usize)>>| -> Out<refm::Span> {
+                    match x {
+                        None => Out::Val(None),
+                        Some(Ok(s)) => Out::Val(Some(s)),
+                        Some(Err(e)) => Out::Err(engine::err_kind(&e)),
+                    }
+                };
+                let fi = std::panic::catch_unwind(std::panic::AssertUnwindSafe(|| first(re.find_iter(t).next().map(|m| m.map(|m| (m.start(), m.end()))))));
+                let ci = std::panic::catch_unwind(std::panic::AssertUnwindSafe(|| first(re.captures_iter(t).next().map(|c| c.map(|c| c.get(0).map_or((usize::MAX, usize::MAX), |m| (m.start(), m.end())))))));
+                for (name, got) in [("find_iter().next()", fi), ("captures_iter().next()", ci)] {
+                    if let Ok(got) = got {
+                        if &got != want_c {
+                            return Verdict::Fail(Fail::new("limit-threshold-iterators", format!("limit {} with {} backtracks needed: {} = {}", l, b, name, want_c.show()), got.show()));
+                        }
+                    }
+                }
+                let rep = std::panic::catch_unwind(std::panic::AssertUnwindSafe(|| re.try_replacen(t, 1, "<$0>").map(|c| c.into_owned())));
+                if let Ok(rep) = rep {
+                    let want_r: Result<String, String> = if (*l as u64) < b {
+                        Err("BacktrackLimitExceeded".to_string())
+                    } else {
+                        match &base {
+                            Out::Val(Some((s, e))) => Ok(format!("{}<{}>{}", &t[..*s], &t[*s..*e], &t[*e..])),
+                            _ => Ok(t.to_string()),
+                        }
+                    };
+                    let got_r = rep.map_err(|e| engine::err_kind(&e));
+                    // try_replacen(t, 1, ..) looks for a second match before it stops: that search has a budget of its
+                    // own and may legitimately exceed it, so above the threshold a limit error is accepted as well
+                    let later_search_hit_limit = (*l as u64) >= b && got_r == Err("BacktrackLimitExceeded".to_string());
+                    if got_r != want_r && !later_search_hit_limit {
+                        return Verdict::Fail(Fail::new("limit-threshold-replace", format!("limit {} with {} backtracks needed: try_replacen(t, 1, \"<$0>\") = {:?}", l, b, want_r), format!("{:?}", got_r)));
+                    }
+                }
             }
         }
         // exact threshold for counts that are not next to one of the fixed limits
@@ -170,7 +206,7 @@ impl PatProp for Limits {
 pub fn run(ctx: &RunCtx) -> Outcome {
     let p = Limits { only_pos0: false };
     let mut o = Outcome::default();
-    o.rule = "VM-compiled patterns of the unrestricted space (exhaustive trees, context x filler products with conditionals, proptest random ASTs) x texts x offsets. Per case the unlimited search is run once and its statistics read through the hook (backtracks B, pushes, peak branch stack, instructions): (ii) for every limit L in {0,1,2,3,5,10,100,10^6} (and B-1, B, B+1 for larger B) the search under backtrack_limit(L) returns exactly Err(BacktrackLimitExceeded) if L < B and exactly the unlimited answer otherwise (find_from_pos at every offset; is_match and captures at offset 0 for L in {0,2,10}); (iii) with default limits a runtime error is only accepted if the reference exploration of the same case is not tiny (> 10^4 steps); (iv) peak stack <= 10^6 and instructions <= (pushes + B + 1) x |program| x counted-repeat factor x (len+2). Non-trivial = B >= 1 and limits on both sides of the threshold were exercised. Distinct = distinct (pattern, text, offset).".into();
+    o.rule = "VM-compiled patterns of the unrestricted space (exhaustive trees, context x filler products with conditionals, proptest random ASTs) x texts x offsets. Per case the unlimited search is run once and its statistics read through the hook (backtracks B, pushes, peak branch stack, instructions): (ii) for every limit L in {0,1,2,3,5,10,100,10^6} (and B-1, B, B+1 for larger B) the search under backtrack_limit(L) returns exactly Err(BacktrackLimitExceeded) if L < B and exactly the unlimited answer otherwise (find_from_pos at every offset; is_match, captures, the first item of find_iter / captures_iter and try_replacen(t, 1, \"<$0>\") at offset 0 for L in {0,2,10}; try_replacen looks for a second match, whose own search may hit the limit, so above the threshold it may also return the limit error); (iii) with default limits a runtime error is only accepted if the reference exploration of the same case is not tiny (> 10^4 steps); (iv) peak stack <= 10^6 and instructions <= (pushes + B + 1) x |program| x counted-repeat factor x (len+2). Non-trivial = B >= 1 and limits on both sides of the threshold were exercised. Distinct = distinct (pattern, text, offset).".into();
     o.assumptions = vec!["hook statistics are those of the single vm::run behind find_from_pos".into(), "wall clock is only a watchdog".into()];
     o.required_classes = vec!["backtracks:1..11".into(), "backtracks:>=12".into(), "oracle:reference-available".into()];
     let quick = ctx.quick();
@@ -200,6 +236,15 @@ pub fn run(ctx: &RunCtx) -> Outcome {
         let long: Vec<String> = vec!["a".repeat(24), "a".repeat(30) + "b", "ab".repeat(14), "a".repeat(200)];
         let loops: Vec<Node> = prods.iter().filter(|n| n.any(|x| matches!(x, Repeat(_, _, None, _)))).cloned().collect();
         if !stage(ctx, &mut o, &lp, "products with unbounded loops x long texts (offset 0)", &loops, &long) {
+            return o;
+        }
+    }
+    // loops around committing constructs with several matching VM-interpreted alternatives: linear for the
+    // reference, exponential for an engine that forgets to commit
+    {
+        let lp = Limits { only_pos0: true };
+        let long: Vec<String> = vec!["a".repeat(26), "a".repeat(30) + "b", "a".repeat(22) + "c", "ab".repeat(13)];
+        if !stage(ctx, &mut o, &lp, "loops around committing constructs x long texts (offset 0)", &gen::loop_commit_products(), &long) {
             return o;
         }
     }
